@@ -14,6 +14,36 @@ use crate::props::c14::element_names;
 
 pub struct C16;
 
+/// a writer that accepts at most `max` bytes per `write` call (a legal `io::Write`):
+/// code that calls `write` where it needs `write_all` loses bytes here
+struct Dribble {
+    out: Vec<u8>,
+    max: usize,
+}
+
+impl std::io::Write for Dribble {
+    fn write(&mut self, buf: &[u8]) -> std::io::Result<usize> {
+        let n = buf.len().min(self.max);
+        self.out.extend_from_slice(&buf[..n]);
+        Ok(n)
+    }
+    fn flush(&mut self) -> std::io::Result<()> {
+        Ok(())
+    }
+}
+
+/// all containers (document / elements) of the model as child-index paths
+fn container_paths(a: &ANode, path: &mut Vec<usize>, out: &mut Vec<Vec<usize>>) {
+    if matches!(a, ANode::Document(_) | ANode::Element(_)) {
+        out.push(path.clone());
+    }
+    for (i, c) in a.children().iter().enumerate() {
+        path.push(i);
+        container_paths(c, path, out);
+        path.pop();
+    }
+}
+
 #[derive(Debug, Clone, PartialEq)]
 enum Ev {
     Open(QName),
@@ -78,7 +108,7 @@ impl Property for C16 {
         "C16"
     }
     fn rule(&self) -> &'static str {
-        "case = well-scoped tree, a start node (the root or any element of it) and token parameters (subset of element names as CDATA-section elements, unescaped_gt, suppress list). Checked: concatenation of tokens() (one space before a token when flagged) == serialize_xml_string with the same parameters, byte for byte; pretty_tokens() assembled from indentation/space/text/newline == the indented string; outputs() == the event list generated from the reference tree (per element StartTagOpen, Prefix*, Attribute*, StartTagClose, children, EndTag; text/comment/PI events), every event tagged with the right node, extra Prefix events on the top element accepted only for inherited in-scope bindings; write / serialize_xml_write / Html5::write produce the same bytes as the string entry points. Non-trivial = some element with both declarations and attributes and at least one non-default parameter. Distinct by hash of (tree, start path, parameters)."
+        "case = well-scoped tree, a start node (the root or any element of it) and token parameters (subset of element names as CDATA-section elements, unescaped_gt, suppress list). Checked: concatenation of tokens() (one space before a token when flagged) == serialize_xml_string with the same parameters, byte for byte; pretty_tokens() assembled from indentation/space/text/newline == the indented string; outputs() == the event list generated from the reference tree (per element StartTagOpen, Prefix*, Attribute*, StartTagClose, children, EndTag; text/comment/PI events), every event tagged with the right node, extra Prefix events on the top element accepted only for inherited in-scope bindings; write / serialize_xml_write (plain and indented) / Html5::write produce the same bytes as the string entry points, both into a Vec and into a writer that accepts only 1..7 bytes per write call. Up to three EMPTY text nodes (API-only) are inserted at generated places: they owe a Text event. Non-trivial = some element with both declarations and attributes and at least one non-default parameter. Distinct by hash of (tree, start path, parameters)."
     }
     fn plans(&self, tier: Tier) -> Vec<Plan> {
         let mk = |name: &'static str, cases| Plan {
@@ -102,10 +132,49 @@ impl Property for C16 {
         };
         let mut xot = Xot::new();
         let mut hs = vec![];
+        let mut doc = doc;
         let root = match bridge::build(&mut xot, &doc, &mut hs) {
             Ok(r) => r,
             Err(e) => return Verdict::Fail(format!("harness: {}", e)),
         };
+        // empty text nodes (only the API can make them): they have no spelling but are nodes,
+        // so the event stream owes them a Text event
+        let mut empties = 0;
+        while empties < 3 && src.ratio(1, 3) {
+            let mut paths = vec![];
+            container_paths(&doc, &mut vec![], &mut paths);
+            let path = paths[src.choice_big(paths.len())].clone();
+            let mut m = &mut doc;
+            let mut x = root;
+            for i in &path {
+                x = match xot.children(x).nth(*i) {
+                    Some(c) => c,
+                    None => return Verdict::Fail("harness: path".into()),
+                };
+                m = &mut m.children_mut().unwrap()[*i];
+            }
+            let ch = m.children_mut().unwrap();
+            let at = src.choice(ch.len() + 1);
+            let text_beside = (at > 0 && ch[at - 1].is_text()) || (at < ch.len() && ch[at].is_text());
+            if text_beside {
+                continue; // consolidation would merge it away
+            }
+            let t = xot.new_text("");
+            let r = if at == ch.len() {
+                xot.append(x, t)
+            } else {
+                let before = xot.children(x).nth(at).unwrap();
+                xot.insert_before(before, t)
+            };
+            if let Err(e) = r {
+                return Verdict::Fail(format!("harness: inserting an empty text node: {}", e));
+            }
+            ch.insert(at, ANode::Text(String::new()));
+            empties += 1;
+        }
+        if empties > 0 {
+            ctx.label("empty_text_node");
+        }
         // start node
         let mut els = vec![];
         collect_elements(&xot, root, &doc, &scope::base_scope(), &mut els);
@@ -128,6 +197,7 @@ impl Property for C16 {
         let cdata_q = pick(src);
         let suppress_q = pick(src);
         let unescaped_gt = src.bool();
+        let chunk = 1 + src.choice(7);
         let cdata: Vec<NameId> = cdata_q.iter().map(|q| name_id(&mut xot, q)).collect();
         let suppress: Vec<NameId> = suppress_q.iter().map(|q| name_id(&mut xot, q)).collect();
         ctx.fingerprint(&(doc.clone(), sub, format!("{:?}{:?}{}", cdata_q, suppress_q, unescaped_gt)));
@@ -199,11 +269,42 @@ impl Property for C16 {
             if buf != plain.as_bytes() {
                 return Err("serialize_xml_write emits other bytes than serialize_xml_string".into());
             }
+            let mut w = Dribble { out: vec![], max: chunk };
+            xot.serialize_xml_write(Parameters { cdata_section_elements: cdata.clone(), unescaped_gt, ..Default::default() }, start, &mut w)
+                .map_err(|e| format!("serialize_xml_write failed on a writer that takes {} bytes per call: {}", chunk, e))?;
+            if w.out != plain.as_bytes() {
+                return Err(format!(
+                    "serialize_xml_write into a writer that accepts {} bytes per write call emits {:?}, the string is {:?}",
+                    chunk,
+                    String::from_utf8_lossy(&w.out),
+                    plain
+                ));
+            }
+            let mut w = Dribble { out: vec![], max: chunk };
+            xot.serialize_xml_write(
+                Parameters { cdata_section_elements: cdata.clone(), unescaped_gt, indentation: Some(Indentation { suppress: suppress.clone() }), ..Default::default() },
+                start,
+                &mut w,
+            )
+            .map_err(|e| format!("serialize_xml_write(indent) failed on a writer that takes {} bytes per call: {}", chunk, e))?;
+            if w.out != pretty.as_bytes() {
+                return Err(format!(
+                    "serialize_xml_write(indent) into a writer that accepts {} bytes per write call emits {:?}, the string is {:?}",
+                    chunk,
+                    String::from_utf8_lossy(&w.out),
+                    pretty
+                ));
+            }
             let dflt = xot.to_string(start).map_err(|e| e.to_string())?;
             let mut buf: Vec<u8> = vec![];
             xot.write(start, &mut buf).map_err(|e| format!("write failed: {}", e))?;
             if buf != dflt.as_bytes() {
                 return Err("write() emits other bytes than to_string()".into());
+            }
+            let mut w = Dribble { out: vec![], max: chunk };
+            xot.write(start, &mut w).map_err(|e| format!("write failed on a writer that takes {} bytes per call: {}", chunk, e))?;
+            if w.out != dflt.as_bytes() {
+                return Err(format!("write() into a writer that accepts {} bytes per write call emits {:?}, to_string gives {:?}", chunk, String::from_utf8_lossy(&w.out), dflt));
             }
             // outputs()
             let outs = guarded(|| bounded(xot.outputs(start), 1_000_000, "outputs")).map_err(|p| format!("outputs() panicked: {}", p))??;
@@ -266,6 +367,11 @@ impl Property for C16 {
                     h.write(start, &mut buf).map_err(|e| format!("Html5::write failed where to_string succeeded: {}", e))?;
                     if buf != hs.as_bytes() {
                         return Err("Html5::write emits other bytes than Html5::to_string".into());
+                    }
+                    let mut w = Dribble { out: vec![], max: chunk };
+                    h.write(start, &mut w).map_err(|e| format!("Html5::write failed on a writer that takes {} bytes per call: {}", chunk, e))?;
+                    if w.out != hs.as_bytes() {
+                        return Err(format!("Html5::write into a writer that accepts {} bytes per write call emits {:?}, to_string gives {:?}", chunk, String::from_utf8_lossy(&w.out), hs));
                     }
                 }
                 _ => {}
